@@ -52,6 +52,7 @@ type Job struct {
 	Redirects  map[string]string `json:"redirects"`
 	NoSkipGuard bool             `json:"no_skip_guard"`
 	SampleWitnesses int          `json:"sample_witnesses"`
+	RecordAsserts int            `json:"record_asserts"`
 }
 
 type Spec struct {
@@ -276,7 +277,7 @@ func main() {
 			MaxPaths: j.MaxPaths, MaxSteps: j.MaxSteps, Deadline: time.Duration(j.DeadlineS * float64(time.Second)),
 			Sched: j.Sched, SchedFuncs: j.SchedFuncs, SchedOther: j.SchedOther, Prune: j.Prune,
 			Params: j.Params, Redirects: red, InitAllow: allow, Warmup: j.Warmup, Transcript: j.Transcript,
-			RepoPrefix: modPath, Concrete: j.Concrete, Witness: j.Witness, MapOrder: j.MapOrder, NoSkipGuard: j.NoSkipGuard, SampleWitnesses: j.SampleWitnesses,
+			RepoPrefix: modPath, Concrete: j.Concrete, Witness: j.Witness, MapOrder: j.MapOrder, NoSkipGuard: j.NoSkipGuard, SampleWitnesses: j.SampleWitnesses, RecordAsserts: j.RecordAsserts,
 		}}
 		r := ex.Run()
 		// keep only functions of the code under test and selected std packages in the report
